@@ -231,6 +231,16 @@ theorem session_state_write_only :
       u.2.1 = "errors" ∧ u.2.2 ∈ RF.Gen.State.reportedErrorsFields := by
   decide
 
+/-- **The command-line loop carries no state of its own.**  In `format` of `src/bin/main.rs` the only mutable
+binding that is alive across the iterations of `for file in files` is the `Session` (whose accumulating fields are
+write-only, see above); the configuration of a path is looked up afresh by `load_config` in every iteration.  A
+cache of configurations keyed by directory, a "previous project" remembered between iterations or any other
+`let mut` in front of the loop changes the generated list and this stops checking. -/
+theorem cli_loop_state_is_pinned :
+    (RF.Gen.State.cliLoopBindings.filter (·.2)).map (·.1) = ["session"] ∧
+    "load_config" ∈ RF.Gen.State.cliLoopCalls := by
+  decide
+
 /-- the model's `Flags` has one field per generated `ReportedErrors` field -/
 theorem flags_match_inventory (f : Flags) :
     f.toList.length = RF.Gen.State.reportedErrorsFields.length := by
